@@ -199,8 +199,14 @@ func (p *party) SetShareData(shareData []byte) error {
 	if err != nil {
 		return fmt.Errorf("failed deserializing shares: %w", err)
 	}
+	if localSaveData.ECDSAPub == nil {
+		return fmt.Errorf("share data has no public key")
+	}
 	localSaveData.ECDSAPub.SetCurve(elliptic.P256())
-	for _, xj := range localSaveData.BigXj {
+	for j, xj := range localSaveData.BigXj {
+		if xj == nil {
+			return fmt.Errorf("share data has no public share for party %d", j)
+		}
 		xj.SetCurve(elliptic.P256())
 	}
 	p.shareData = &localSaveData
